@@ -65,15 +65,18 @@ class Taper(om.ExplicitComponent):
         # interpolation problem
         if symmetry:
             xp = np.array([-span, 0.0])
-            fp = np.array([taper_ratio, 1.0])
+            dfp = np.array([1.0, 0.0])
 
         # Otherwise, we set up an interpolation problem for the entire wing, which
         # consists of two linear segments
         else:
             xp = np.array([-span / 2, 0.0, span / 2])
-            fp = np.array([taper_ratio, 1.0, taper_ratio])
+            dfp = np.array([1.0, 0.0, 1.0])
 
-        taper = np.interp(x.real, xp.real, fp.real)
+        # The interpolation is linear in its end values (taper_ratio at the tips,
+        # 1 at the root), so interpolate the weight of taper_ratio and blend.
+        weight = np.interp(x.real, xp.real, dfp)
+        taper = weight * taper_ratio + (1.0 - weight)
 
         # Modify the mesh based on the taper amount computed per spanwise section
         outputs["mesh"] = np.einsum("ijk,j->ijk", mesh - ref_axis, taper) + ref_axis
@@ -81,7 +84,6 @@ class Taper(om.ExplicitComponent):
     def compute_partials(self, inputs, partials):
         mesh = self.options["mesh"]
         symmetry = self.options["symmetry"]
-        taper_ratio = inputs["taper"][0]
 
         # Get mesh parameters and the quarter-chord
         le = mesh[0]
@@ -95,20 +97,16 @@ class Taper(om.ExplicitComponent):
         # interpolation problem
         if symmetry:
             xp = np.array([-span, 0.0])
-            fp = np.array([taper_ratio, 1.0])
+            dfp = np.array([1.0, 0.0])
 
         # Otherwise, we set up an interpolation problem for the entire wing, which
         # consists of two linear segments
         else:
             xp = np.array([-span / 2, 0.0, span / 2])
-            fp = np.array([taper_ratio, 1.0, taper_ratio])
+            dfp = np.array([1.0, 0.0, 1.0])
 
-        taper = np.interp(x, xp, fp)
-
-        if taper_ratio == 1.0:
-            dtaper = np.zeros(taper.shape)
-        else:
-            dtaper = (1.0 - taper) / (1.0 - taper_ratio)
+        # taper = weight * taper_ratio + (1 - weight), so d(taper)/d(taper_ratio) = weight
+        dtaper = np.interp(x.real, xp.real, dfp)
 
         partials["mesh", "taper"] = np.einsum("ijk, j->ijk", mesh - ref_axis, dtaper)
 
